@@ -97,6 +97,8 @@ STRUCTS = {
     'a_xy': [('a', ['x', 'y'])],
     'a_x-b_yx': [('a', ['x']), ('b', ['y', 'x'])],
     'a_xy-b_y-c_0': [('a', ['x', 'y']), ('b', ['y']), ('c', [])],
+    'a_x-b_xy': [('a', ['x']), ('b', ['x', 'y'])],
+    'a_y-b_xyz': [('a', ['y']), ('b', ['x', 'y', 'z'])],
     'a_y-b_xz': [('a', ['y']), ('b', ['x', 'z'])],
     'a_xyz-b_zy-c_x': [('a', ['x', 'y', 'z']), ('b', ['z', 'y']), ('c', ['x'])],
 }
@@ -194,6 +196,21 @@ def rename(ctx, struct, how, dim, appended=()):
 
         def f():
             holder['r'] = ds.rename_axes({dim: new}, inplace=False)
+    elif how in ('dims-rotate', 'rename_axes-rotate'):
+        # bulk renaming onto a rotation of the *current* names (old and new names overlap)
+        cur = list(ds.dims)
+        rot = cur[1:] + cur[:1]
+        if how == 'dims-rotate':
+            f = lambda: setattr(ds, 'dims', tuple(rot))
+        else:
+            f = lambda: ds.rename_axes(dict(zip(cur, rot)))
+        r = ctx.call(f)
+        if r[0] != 'ok':
+            return ctx.done(False, r[1])
+        if how == 'rename_axes-rotate' and len(cur) > 1:
+            # a chain of single renames through existing names is not claimed; only the invariant is
+            return ctx.done(inv(ctx, ds) or True, ctx.observe(ds))
+        return ctx.done(ctx.AND(inv(ctx, ds), state_eq(ctx, ds, st, rename=dict(zip(cur, rot)))), ctx.observe(ds))
     r = ctx.call(f)
     if r[0] != 'ok':
         return ctx.done(False, r[1])
@@ -380,6 +397,8 @@ def templates():
             for how in ('axes[d]=Axis', 'axes[d]=values', 'axes[d][i]=label', 'set_axis', 'set_axis_pos', 'attr', 'axis.values', 'var.axis[i]', 'var.set_axis', 'set_axis_copy'):
                 add('relabel-%s-%s-%s' % (sname, dim, how), 'relabel', cost=0.3, struct=sname, how=how, dim=dim)
             add('wrongsize-%s-%s' % (sname, dim), 'wrong_size', cost=0.2, struct=sname, dim=dim)
+        if len(dims) >= 2:
+            add('rename-%s-dims-rotate' % sname, 'rename', cost=0.2, struct=sname, how='dims-rotate', dim=dims[0])
         if keys:
             for how in ('dict', 'fn', 'copy'):
                 add('rename-keys-%s-%s' % (sname, how), 'rename_keys', cost=0.2, struct=sname, how=how)
